@@ -73,6 +73,17 @@ static void emit_odd(int kind, std::size_t t, int w, unsigned long long seed, ch
             auto r = hep::mpi_plain(comm, hep::make_integrand<T>(f, 1), calls, chk, hep::mpi_callback<C>(hep::callback_mode::silent));
             end[(std::size_t) rank] = (long long) r.generator().pos();
         }
+        else if (kind == 2)
+        {
+            // two channels: the selection costs one canonical number of the run's numeric type, like every coordinate
+            auto f = [mine, k](hep::multi_channel_point<T> const&) { if (mine->calls == 0) mine->first = last_pos - 2 * k; ++mine->calls; return T(1); };
+            auto map = [](std::size_t, std::vector<T> const& r, std::vector<T>& c, std::vector<std::size_t> const&, std::vector<T>& d, hep::multi_channel_map) {
+                c[0] = r[0]; d[0] = T(1); d[1] = T(1); return T(1); };
+            auto chk = hep::make_multi_channel_chkpt<T, E>(T(), T(0.25), E());
+            using C = decltype(chk);
+            auto r = hep::mpi_multi_channel(comm, hep::make_multi_channel_integrand<T>(f, 1, map, 1, 2), calls, chk, hep::mpi_callback<C>(hep::callback_mode::silent));
+            end[(std::size_t) rank] = (long long) r.generator().pos();
+        }
         else
         {
             auto f = [mine, k](hep::vegas_point<T> const&) { if (mine->calls == 0) mine->first = last_pos - k; ++mine->calls; return T(1); };
@@ -88,7 +99,7 @@ static void emit_odd(int kind, std::size_t t, int w, unsigned long long seed, ch
         long long before = (long long) hep::discard_before(t, (std::size_t) r, (std::size_t) w);
         long long after = (long long) hep::discard_after(t, (std::size_t) sub, (std::size_t) r, (std::size_t) w);
         vt::ev("Share").s("src", src).i("t", (long long) t).i("w", w).i("r", r).i("before", before).i("sub", sub).i("after", after)
-            .i("first", o[(std::size_t) r].first).i("usage", k).i("end", end[(std::size_t) r]).i("suboff", 0).i("prev", 0).emit();
+            .i("first", o[(std::size_t) r].first).i("usage", kind == 2 ? 2 * k : k).i("end", end[(std::size_t) r]).i("suboff", 0).i("prev", 0).emit();
     }
 }
 
@@ -192,6 +203,7 @@ int main(int argc, char** argv)
             {
                 emit_odd<long double, pos_engine<4294967291ULL>>(0, t, w, seed + t, "mpi_plain-odd-range-ld");
                 emit_odd<double, pos_engine<134217689ULL>>(1, t, w, seed + t, "mpi_vegas-odd-range-d");
+                emit_odd<float, pos_engine<4294967296ULL>>(2, t, w, seed + t, "mpi_multi_channel-32bit-f");
             }
             if (w >= 2 && w <= 6 && t <= 12)
             {
